@@ -350,16 +350,18 @@ fn run_c14(t: &[&str], out: &mut RunOut, line: &str) {
             if is_none_val && json != "null" { err = Some("serde does not write none as null".into()); }
             let mut notes: Vec<&str> = vec![];
             if !is_none_val && json != serde_json::to_string(&a).unwrap() { notes.push("serde encoding of some differs from the value's"); }
-            if borsh::from_slice::<PodOption<Address>>(&borsh_b).ok() != Some(po) { notes.push("borsh decoder does not read back what the encoder wrote"); }
-            if serde_json::from_str::<PodOption<Address>>(&json).ok() != Some(po) { notes.push("serde decoder does not read back what the encoder wrote"); }
+            // the property quantifies the round trip "into it and back is the identity" over the conversion paths Option, COption,
+            // byte cast, Borsh and Serde: a value written through a path must come back through that path
+            if borsh::from_slice::<PodOption<Address>>(&borsh_b).ok() != Some(po) { err = Some("Borsh round trip is not the identity".into()); }
+            if serde_json::from_str::<PodOption<Address>>(&json).ok() != Some(po) { err = Some("Serde (JSON) round trip is not the identity".into()); }
             {
                 // deserialising INTO an existing value (serde's `deserialize_in_place`, what `Vec::deserialize_in_place` does
-                // with recycled elements): a decoder matter, outside the property's wording, so a note
+                // with recycled elements): another way through the Serde path
                 use serde::Deserialize;
                 let mut place = PodOption::from(Address::new_from_array([0x5a; 32]));
                 let mut de = serde_json::Deserializer::from_str(&json);
                 let ok = PodOption::<Address>::deserialize_in_place(&mut de, &mut place).is_ok();
-                if !ok || place != po { notes.push("serde deserialize_in_place over an existing value does not yield what the encoder wrote"); }
+                if !ok || place != po { err = Some("Serde round trip through deserialize_in_place (over an existing value) is not the identity".into()); }
             }
             if bytemuck::try_from_bytes::<PodOption<Address>>(&raw).ok() != Some(&po) { err = Some("byte cast".into()); }
             // Serde deserialisers that buffer their input first (flatten, internally tagged and untagged enums) hand the
@@ -373,7 +375,7 @@ fn run_c14(t: &[&str], out: &mut RunOut, line: &str) {
                 let ok_u = serde_json::to_string(&u).ok().and_then(|j| serde_json::from_str::<Untagged>(&j).ok()) == Some(u);
                 if !(ok_f && ok_g && ok_u) {
                     if is_none_val { err = Some("a Serde deserialiser that buffers its input (flatten / tagged / untagged enum) rejects the null that Serde wrote for none".into()); }
-                    else { notes.push("a buffering Serde deserialiser does not read back some(v)"); }
+                    else { err = Some("Serde round trip through a buffering deserialiser (flatten / tagged / untagged enum) is not the identity".into()); }
                 }
             }
             // TryFrom<Option>, TryFrom<COption>
@@ -393,7 +395,8 @@ fn run_c14(t: &[&str], out: &mut RunOut, line: &str) {
             let bo = bincode::serialize(&o).unwrap();
             let bde = bincode::deserialize::<PodOption<Address>>(&bo);
             if bde.is_err() != reject { err = Some("binary serde deserialiser accepts some(none-value) or rejects a valid option".into()); }
-            if let Ok(p) = &bde { if p.get() != o { notes.push("binary serde decoder does not read back the option"); } }
+            if let Ok(p) = &bde { if p.get() != o { err = Some("Serde (binary) round trip is not the identity".into()); } }
+            if !reject && bincode::deserialize::<PodOption<Address>>(&bincode::serialize(&po).unwrap()).ok() != Some(po) { err = Some("Serde (binary) round trip of the PodOption itself is not the identity".into()); }
             // "Serde writes none as null": in a format that tells unit / none / some apart, none must be Serde's `none`
             if is_none_val && bincode::serialize(&po).unwrap() != bincode::serialize(&None::<Address>).unwrap() { err = Some("Serde does not write none as `none` (null) in a binary format".into()); }
             if !is_none_val && bincode::serialize(&po).unwrap() != bincode::serialize(&got).unwrap() { notes.push("binary serde encoding of some differs from Option's"); }
